@@ -216,7 +216,12 @@ func (h *fasthttpHandler) readReqMsg(ctx *fasthttp.RequestCtx) *dnsmsg.Msg {
 
 		buf := bufPool.Get()
 		defer bufPool.Release(buf)
-		_, err := buf.ReadFrom(io.LimitReader(ctx.Request.BodyStream(), 65535))
+		// BodyStream is nil if the request has no body, e.g. no Content-Length header.
+		var body io.Reader = bytes.NewReader(nil)
+		if bs := ctx.Request.BodyStream(); bs != nil {
+			body = bs
+		}
+		_, err := buf.ReadFrom(io.LimitReader(body, 65535))
 		if err != nil {
 			h.logger.Warn().
 				Object("request", (*fasthttpReqLoggerObj)(ctx)).
